@@ -510,3 +510,60 @@ def search_value_change(sample, rnd, tries=40):
                         "instruction_before": repr(fb[b][idx]), "instruction_after": repr(fa[b][idx]),
                         "value_before": str(x[3]), "value_after": str(y[3]), "seed": seed}
     return None
+
+
+# ------------------------------------------------------------------ hand-made families for the affine folding pass
+def affine_family(rnd, n=120):
+    """Random straight-line / two-block functions made of add/sub/assign chains (literal on either side, multi-use
+    intermediates, re-use of the root), pushed through the REAL AffineFoldingPass; returns samples for evaluate_affine."""
+    from vyper.venom.analysis import IRAnalysesCache
+    from vyper.venom.parser import parse_venom
+    from vyper.venom.passes.affine_folding import AffineFoldingPass
+    LITS = [0, 1, 2, 3, 5, 7, 31, 32, 64, 96, 100, 255, 256, 2**128, 2**255, 2**256 - 1, 2**256 - 2, 2**256 - 32]
+    out = []
+    for t in range(n):
+        lines = ["    %x = calldataload 0", "    %y = calldataload 32"]
+        vars_ = ["%x", "%y"]
+        chain = "%x"
+        m = rnd.randint(2, 6)
+        for k in range(m):
+            v = f"%t{k}"
+            kind = rnd.random()
+            lit = rnd.choice(LITS)
+            src = chain if rnd.random() < 0.8 else rnd.choice(vars_)
+            if kind < 0.35:
+                lines.append(f"    {v} = add {src}, {lit}")
+            elif kind < 0.5:
+                lines.append(f"    {v} = add {lit}, {src}")
+            elif kind < 0.75:
+                lines.append(f"    {v} = sub {src}, {lit}")
+            elif kind < 0.9:
+                lines.append(f"    {v} = sub {lit}, {src}")
+            elif kind < 0.95:
+                lines.append(f"    {v} = {src}")
+            else:
+                lines.append(f"    {v} = add {src}, {rnd.choice(vars_)}")
+            vars_.append(v)
+            chain = v
+            if rnd.random() < 0.15:
+                lines.append(f"    sstore {rnd.randint(0, 3)}, {rnd.choice(vars_)}")
+        # every variable gets at least one use so that single-use / multi-use both occur
+        lines.append(f"    sstore 9, {chain}")
+        if rnd.random() < 0.5:
+            lines.append(f"    sstore 10, {rnd.choice(vars_)}")
+        lines.append("    stop")
+        src_txt = "function main {\n  main:\n" + "\n".join(lines) + "\n}\n"
+        try:
+            ctx = parse_venom(src_txt)
+            fn = list(ctx.functions.values())[0]
+            ex = Export(fn, None)
+            before, before_s = ex.func(), ex.struct()
+            AffineFoldingPass(IRAnalysesCache(fn), fn).run_pass()
+            after = ex.func()
+        except Exception as e:
+            out.append(dict(key=f"fam{t}", name=f"family_{t}", error=repr(e), text=src_txt))
+            continue
+        if after != before:
+            out.append(dict(key=f"fam{t}", name=f"family_{t}", func=before, after=after, ninsts=len(lines), text=src_txt + "\n-- after --\n" + str(fn),
+                            before_s=before_s, after_s=ex.struct()))
+    return out
